@@ -283,3 +283,136 @@ class FnFlow:
             if not any(sb in dom.get(bi, ()) and sb != bi for sb in sorts):
                 return False, "collected Vec is used by %s before being sorted" % t["callee"].get("path")
         return True, "sorted before use"
+
+
+# ---------------------------------------------------------------------------
+# backward data-dependence closure ("origins")
+
+def _place_roots(fn_is_closure, place):
+    """base of a place: ('upvar', i) for closure captures, else ('local', l)"""
+    l = place["l"]
+    if fn_is_closure and l == 1:
+        for p in place["p"]:
+            if p == "*":
+                continue
+            if p.startswith("f:#"):
+                return ("upvar", int(p[3:]))
+            break
+    return ("local", l)
+
+
+class Origins:
+    """may-depend-on closure of a local: params, closure upvars, calls, constants, aggregates"""
+
+    def __init__(self, flow):
+        self.flow = flow
+        self.fn = flow.fn
+        self.is_closure = flow.fn.kind == "Closure"
+        self.argc = flow.mir["arg_count"]
+        self._defs = collections.defaultdict(list)
+        for bi, b in enumerate(flow.blocks):
+            for st in b["stmts"]:
+                if st["k"] == "Assign":
+                    self._defs[st["place"]["l"]].append(("stmt", bi, st))
+            t = b["term"]
+            if t["k"] == "Call":
+                self._defs[t["dest"]["l"]].append(("call", bi, t))
+
+    def of_operand(self, op):
+        out = set()
+        self._operand(op, out, set())
+        return out
+
+    def of_local(self, l):
+        out = set()
+        self._local(l, out, set())
+        return out
+
+    def _operand(self, op, out, seen):
+        if op is None:
+            return
+        if op.get("k") == "const":
+            out.add(("const", op.get("fn") or op.get("v")))
+            return
+        pl = op.get("place")
+        if pl is not None:
+            self._place(pl, out, seen)
+
+    def _place(self, pl, out, seen):
+        kind, x = _place_roots(self.is_closure, pl)
+        if kind == "upvar":
+            out.add(("upvar", x))
+            return
+        for p in pl["p"]:
+            if p.startswith("[_"):
+                self._local(int(p[2:-1]), out, seen)
+        self._local(x, out, seen)
+
+    def _local(self, l, out, seen):
+        if l in seen:
+            return
+        seen.add(l)
+        if 1 <= l <= self.argc:
+            out.add(("param", l))
+        for kind, bi, d in self._defs.get(l, ()):
+            if kind == "call":
+                out.add(("call", d["callee"].get("resolved") or d["callee"].get("path") or "<indirect>", bi))
+                for a in d["args"]:
+                    self._operand(a, out, seen)
+            else:
+                rv = d["rv"]
+                k = rv["k"]
+                if k in ("Use", "Cast", "Repeat"):
+                    self._operand(rv["op"], out, seen)
+                elif k in ("Ref", "RawPtr", "CopyForDeref", "Discriminant"):
+                    self._place(rv["place"], out, seen)
+                elif k == "BinaryOp":
+                    self._operand(rv["a"], out, seen)
+                    self._operand(rv["b"], out, seen)
+                elif k == "UnaryOp":
+                    self._operand(rv["a"], out, seen)
+                elif k == "Aggregate":
+                    out.add(("agg", rv.get("adt") or rv.get("closure") or rv.get("agg"), rv.get("variant")))
+                    for o in rv["ops"]:
+                        self._operand(o, out, seen)
+                elif k == "ThreadLocalRef":
+                    out.add(("static", rv["static"]))
+
+
+def must_pass(flow, pblocks):
+    """True iff every normal path from entry to a Return passes through a block of `pblocks`
+    (the P event happens at the block's terminator)"""
+    seen = set()
+    work = [0]
+    while work:
+        b = work.pop()
+        if b in seen:
+            continue
+        seen.add(b)
+        if b in pblocks:
+            continue
+        if flow.blocks[b]["term"]["k"] == "Return":
+            return False
+        work.extend(flow.succ(b))
+    return True
+
+
+def offending_return_path(flow, pblocks):
+    """a witness path (list of blocks) from entry to Return avoiding pblocks, or None"""
+    prev = {0: None}
+    work = [0]
+    while work:
+        b = work.pop(0)
+        if b in pblocks:
+            continue
+        if flow.blocks[b]["term"]["k"] == "Return":
+            path = []
+            while b is not None:
+                path.append(b)
+                b = prev[b]
+            return list(reversed(path))
+        for s in flow.succ(b):
+            if s not in prev:
+                prev[s] = b
+                work.append(s)
+    return None
